@@ -360,6 +360,8 @@ func enumValue(name string) (starlark.Value, bool) {
 		ctor = enumCtor(edColor)
 	case "Other":
 		ctor = enumCtor(edOther)
+	case "LeafColor":
+		ctor = enumCtor(edLeafC)
 	case "E2":
 		ctor = enumCtor(edE2)
 	default:
@@ -378,6 +380,8 @@ func enumByName(name string) protoreflect.EnumDescriptor {
 		return edColor
 	case "Other":
 		return edOther
+	case "LeafColor":
+		return edLeafC
 	case "E2":
 		return edE2
 	}
